@@ -120,6 +120,7 @@ func (e *Exec) modHeapsSyntactic(fn *ssa.Function, spec *FuncSpec) []string {
 	env.bindParamsTypesOnly(fn)
 	var out []string
 	for _, c := range spec.Modifies {
+		env.pkgOverride = c.Pkg
 		for _, l := range c.Locs {
 			for _, hl := range env.evalLoc(l) {
 				out = append(out, hl.heap)
@@ -163,7 +164,7 @@ func (e *Exec) instrWrites(fn *ssa.Function, in ssa.Instruction, ws map[string]b
 			ws[e.elemHeap(sl.Elem())] = true
 		}
 	case *ssa.Go:
-		ws[wsAll] = true
+		e.callWrites(&x.Call, ws)
 	case *ssa.Call:
 		e.callWrites(&x.Call, ws)
 	case *ssa.Defer:
@@ -545,7 +546,7 @@ func (e *Exec) loopFrameAssume(fr *frame, st, pre *State, heap, old, nw string, 
 		entryT := e.heapTerm(e.entry, heap)
 		keep := func(r string) string {
 			cond := lt(app("root", r), e.nextRef0)
-			for _, m := range e.modset[heap] {
+			for _, m := range append(append([]modLoc{}, e.modset[heap]...), e.modset["*"]...) {
 				if m.all {
 					cond = and(cond, not(m.cond))
 				} else if m.pred != nil {
@@ -821,6 +822,9 @@ func (l heapLoc) has(r string) string {
 	if c == "" {
 		c = "true"
 	}
+	if l.all {
+		return c
+	}
 	if l.pred != nil {
 		return and(c, l.pred(r))
 	}
@@ -885,7 +889,7 @@ func (e *Exec) havocWrites(fr *frame, st *State, ws map[string]bool, mods []heap
 		if hi := e.heapInfos[name]; hi.kind == 'V' {
 			any := false
 			for _, m := range mods {
-				if m.heap == name {
+				if m.heap == name || m.heap == "*" {
 					any = true
 					if m.pred != nil {
 						e.rangeStable(fr, st, name, "", pos)
@@ -896,6 +900,24 @@ func (e *Exec) havocWrites(fr *frame, st *State, ws map[string]bool, mods []heap
 			}
 			if !any && !(hasMod && spec.HasMod) {
 				e.rangeStable(fr, st, name, "", pos)
+			}
+		}
+		if hasMod && spec.HasMod && !noFrame[name] && e.heapInfos[name].kind != 'g' {
+			touched := false
+			for _, m := range mods {
+				if m.heap == name || m.heap == "*" {
+					touched = true
+				}
+			}
+			if !touched {
+				// The callee writes this heap only at objects it allocates itself.
+				// Nothing is known about the contents of unallocated memory, so
+				// the current version already stands for "old objects unchanged,
+				// new objects arbitrary"; only the typing facts are extended to
+				// the objects that exist now.
+				cur := e.heapTerm(st, name)
+				e.heapFacts(st, name, cur, e.heapInfos[name], st.nextRef, st.pc)
+				continue
 			}
 		}
 		old, nw := e.havocHeapTyped(st, name, st.nextRef)
@@ -913,14 +935,14 @@ func (e *Exec) havocWrites(fr *frame, st *State, ws map[string]bool, mods []heap
 			keep := func(r string) string {
 				cond := lt(app("root", r), preRef)
 				for _, m := range mods {
-					if m.heap == name {
+					if m.heap == name || m.heap == "*" {
 						cond = and(cond, not(m.has(r)))
 					}
 				}
 				return cond
 			}
 			e.frameAssume(st.pc, name, nw, old, keep)
-		} else if e.spec != nil && e.spec.HasMod && !e.modAll && e.heapInfos[name].kind != 'g' {
+		} else if e.spec != nil && e.spec.HasMod && !e.modAll && e.heapInfos[name].kind != 'g' && e.heapInfos[name].kind != 'G' {
 			// callee without modifies clause writes this heap: cannot be framed
 			e.oblige(fr, st, "frame-call:"+shortName(callee), "callee "+callee+" may write "+name+" and declares no `modifies`", pos, "false")
 		}
@@ -1000,7 +1022,7 @@ func (e *Exec) contractCall(fr *frame, st *State, callee *ssa.Function, spec *Fu
 		}
 	}
 	for _, c := range spec.Requires {
-		v := env.eval(c.E)
+		v := env.evalClause(c)
 		o := e.oblige(fr, st, "pre:"+short, "precondition of "+key+": "+c.Src, pos, v.T)
 		_ = o
 	}
@@ -1020,11 +1042,16 @@ func (e *Exec) contractCall(fr *frame, st *State, callee *ssa.Function, spec *Fu
 	// lock invariant: checked when the lock is released
 	if callee != nil {
 		e.lockInvariant(fr, st, callee, args, false, pos)
+		k := funcKey(callee)
+		if k == "sync.(*Mutex).Unlock" || k == "sync.(*RWMutex).Unlock" {
+			e.checkGuarantees(fr, st, pos)
+		}
 	}
 	pre := st.clone()
 	// effects
 	var mods []heapLoc
 	for _, c := range spec.Modifies {
+		env.pkgOverride = c.Pkg
 		cond := ""
 		if c.When != nil {
 			cond = env.eval(c.When).T
@@ -1035,6 +1062,7 @@ func (e *Exec) contractCall(fr *frame, st *State, callee *ssa.Function, spec *Fu
 				mods = append(mods, hl)
 			}
 		}
+		env.pkgOverride = ""
 	}
 	ws := map[string]bool{}
 	if callee != nil && !spec.Extern && !spec.Trusted && callee.Blocks != nil {
@@ -1079,7 +1107,13 @@ func (e *Exec) contractCall(fr *frame, st *State, callee *ssa.Function, spec *Fu
 	// caller's frame: callee's declared locations must be inside it
 	if e.spec != nil && e.spec.HasMod && !e.modAll {
 		for _, m := range mods {
-			if m.pred != nil {
+			if m.heap == "*" {
+				// every object the callee may touch (any heap) must be in our frame
+				goal := fmt.Sprintf("(forall ((r Int)) (=> (and %s (< (root r) %s)) %s))", m.has("r"), st.nextRef, e.inFrame("*", "r"))
+				e.oblige(fr, st, "frame-call:"+short, "objects modified by "+key+" (all allocated since a given point) are inside caller's `modifies`", pos, goal)
+				continue
+			}
+			if m.pred != nil || m.all {
 				goal := fmt.Sprintf("(forall ((r Int)) (=> %s %s))", m.has("r"), e.inFrame(m.heap, "r"))
 				e.oblige(fr, st, "frame-call:"+short, "locations modified by "+key+" ("+m.heap+", set) are inside caller's `modifies`", pos, goal)
 				continue
@@ -1095,8 +1129,14 @@ func (e *Exec) contractCall(fr *frame, st *State, callee *ssa.Function, spec *Fu
 	// results
 	var res []Val
 	rts := resultTypes(sig)
-	if spec.Function {
+	if spec.Function && e.ctx.bv && key == "math.Abs" && len(targs) == 1 {
+		res = append(res, Val{T: app("fp.abs", targs[0].T), S: sF, GoT: rts[0]})
+	} else if spec.Function {
 		fname := "fn$" + sanitize(key)
+		if spec.FunctionAs != "" {
+			fname = "spec$" + sanitize(spec.FunctionAs)
+		}
+		e.trust("result of " + key + " is a function of its arguments only (`function` clause)")
 		var asorts, aterms []string
 		for _, a := range targs {
 			asorts = append(asorts, a.S)
@@ -1128,11 +1168,86 @@ func (e *Exec) contractCall(fr *frame, st *State, callee *ssa.Function, spec *Fu
 	}
 	bindResults(post.vars, callee, sig, res)
 	for _, c := range spec.Ensures {
-		v := post.eval(c.E)
+		// an existential postcondition is skolemised here, so that the caller's
+		// contract can name the witness with a `choose` clause
+		if q, guard, ok := existsForm(c.E); ok {
+			saved := post.pkgOverride
+			post.pkgOverride = c.Pkg
+			c2 := post.child()
+			g := "true"
+			if guard != nil {
+				g = post.eval(guard).T
+			}
+			okq := true
+			for _, qv := range q.Vars {
+				t := post.resolveType(qv.Type)
+				if t == nil {
+					okq = false
+					break
+				}
+				w := e.havocVal(st, t, "witness_"+qv.Name)
+				c2.vars[qv.Name] = w
+				if callee != nil {
+					e.witnesses[callee.Name()+"."+qv.Name] = w
+				}
+			}
+			post.pkgOverride = saved
+			if okq {
+				c2.pkgOverride = c.Pkg
+				body := c2.eval(q.Body)
+				e.ctx.assume(imp(st.pc, imp(g, body.T)))
+				continue
+			}
+		}
+		v := post.evalClause(c)
 		e.ctx.assume(imp(st.pc, v.T))
 	}
 	if spec.Extern || spec.Trusted || callee == nil || callee.Blocks == nil {
 		e.trust("contract of " + key + " (" + spec.Line + ") is assumed, not verified")
+	}
+	if callee != nil && e.topFrame != nil && e.topFrame.spec != nil {
+		// `choose x T after f suchthat P(x)`: name a witness of an existential
+		// fact that holds after the call (definition by choice: if some value
+		// satisfies P, then x does)
+		for _, ch := range e.topFrame.spec.Chooses {
+			if ch.Callee != callee.Name() {
+				continue
+			}
+			cenv := e.specEnv(e.topFrame, st, nil)
+			for k, v := range e.topFrame.entryParams {
+				if _, isLocal := e.topFrame.locals[k]; !isLocal {
+					cenv.vars[k] = v
+				}
+			}
+			t := cenv.resolveType(ch.Type)
+			if t == nil {
+				e.specErrors = append(e.specErrors, "choose: unknown type "+ch.Type)
+				continue
+			}
+			if w, ok := e.witnesses[callee.Name()+"."+ch.Name]; ok {
+				// the witness of the callee's existential postcondition
+				e.topFrame.entryParams[ch.Name] = w
+				continue
+			}
+			w := e.havocVal(st, t, "chosen_"+ch.Name)
+			e.qn++
+			bv := fmt.Sprintf("%s_q%d", sanitize(ch.Name), e.qn)
+			c1 := cenv.child()
+			c1.vars[ch.Name] = Val{T: bv, S: w.S, GoT: t}
+			pb := c1.eval(ch.E)
+			c2 := cenv.child()
+			c2.vars[ch.Name] = w
+			pw := c2.eval(ch.E)
+			e.ctx.assume(imp(st.pc, imp(fmt.Sprintf("(exists ((%s %s)) %s)", bv, w.S, pb.T), pw.T)))
+			e.topFrame.entryParams[ch.Name] = w
+		}
+	}
+	if callee != nil && e.topFrame != nil && e.topFrame.spec != nil && fr == e.topFrame {
+		for _, gi := range e.topFrame.spec.GhostInits {
+			if gi.Callee == callee.Name() {
+				e.ghostInit(fr, st, gi)
+			}
+		}
 	}
 	if callee != nil {
 		// lock invariant: available after the lock is acquired
@@ -1369,6 +1484,7 @@ func (e *Exec) lockInvariant(fr *frame, st *State, callee *ssa.Function, args []
 	}
 	ownerT, fld, ownerV, ok := e.mutexOwner(fr, e.curCallArg0)
 	if !ok {
+		e.localLockInvariant(fr, st, after, pos)
 		return
 	}
 	name := pkgPathOf(ownerT) + "." + typeShortName(ownerT) + "." + fld
@@ -1462,4 +1578,157 @@ func (e *Exec) defaultStdSpec(fn *ssa.Function) *FuncSpec {
 	spec.Modifies = []*Clause{mc}
 	e.defaultSpecs[key] = spec
 	return spec
+}
+
+// localLockInvariant: `lockinv local <Func>.<var> = <specfn>(args...)` for a
+// mutex that is a local variable of Func (possibly captured by a closure of
+// Func that is being verified). The invariant expression is evaluated in the
+// scope of the function under verification.
+func (e *Exec) localLockInvariant(fr *frame, st *State, after bool, pos token.Pos) {
+	name := ""
+	switch v := e.curCallArg0.(type) {
+	case *ssa.Alloc:
+		name = v.Comment
+	case *ssa.FreeVar:
+		name = v.Name()
+	default:
+		return
+	}
+	fn := e.fn
+	for fn != nil && fn.Parent() != nil {
+		fn = fn.Parent()
+	}
+	if fn == nil || fn.Pkg == nil {
+		return
+	}
+	key := fn.Pkg.Pkg.Path() + ".local " + fn.Name() + "." + name
+	src, ok := e.ss.LockInvs[key]
+	if !ok {
+		return
+	}
+	ex, err := parseExpr(src)
+	if err != nil {
+		e.specErrors = append(e.specErrors, "lockinv "+key+": "+err.Error())
+		return
+	}
+	env := e.specEnv(e.topFrame, st, nil)
+	for k, v := range e.topFrame.entryParams {
+		if _, isLocal := e.topFrame.locals[k]; !isLocal {
+			if _, isCap := e.topFrame.captured[k]; !isCap {
+				env.vars[k] = v
+			}
+		}
+	}
+	v := env.eval(ex)
+	if after {
+		e.ctx.assume(imp(st.pc, v.T))
+		e.trust("lock invariant of local mutex " + key + " (" + src + ") is assumed on acquisition (checked at every release)")
+	} else {
+		e.oblige(fr, st, "lockinv:"+name, "lock invariant "+src+" holds when "+name+" is released", pos, v.T)
+	}
+}
+
+// checkGuarantees: the `guarantee` clauses of the function under verification
+// (a goroutine body) must hold whenever it makes its writes visible: at every
+// lock release and when it returns.
+func (e *Exec) checkGuarantees(fr *frame, st *State, pos token.Pos) {
+	if e.spec == nil || e.topFrame == nil {
+		return
+	}
+	for _, c := range e.topFrame.spec.Guarantees {
+		env := e.specEnv(e.topFrame, st, nil)
+		for k, v := range e.topFrame.entryParams {
+			if _, isLocal := e.topFrame.locals[k]; !isLocal {
+				env.vars[k] = v
+			}
+		}
+		v := env.eval(c.E)
+		e.oblige(fr, st, "guarantee", "guarantee "+c.Src+" holds when writes become visible", pos, v.T)
+	}
+}
+
+// existsForm recognises `exists x :: P` and `G ==> (exists x :: P)`.
+func existsForm(e Expr) (EQuant, Expr, bool) {
+	if q, ok := e.(EQuant); ok && !q.Forall {
+		return q, nil, true
+	}
+	if b, ok := e.(EBin); ok && b.Op == "==>" {
+		if q, ok := b.R.(EQuant); ok && !q.Forall {
+			return q, b.L, true
+		}
+	}
+	return EQuant{}, nil, false
+}
+
+// ghostInit: `ghostinit f x = e after callee`. f is an uninterpreted
+// specification function of one pointer argument, x a local variable of the
+// function under verification whose address is taken (so &x is an object
+// allocated by this activation, about which f has no other constraint): the
+// ghost value f(&x) is fixed to e. Sound because it happens at most once per
+// object: the clause must be the only one for (f, x) and its call site must be
+// unique and outside every loop.
+func (e *Exec) ghostInit(fr *frame, st *State, gi GhostInit) {
+	bad := func(f string, a ...any) {
+		e.specErrors = append(e.specErrors, "ghostinit ("+gi.Line+"): "+fmt.Sprintf(f, a...))
+	}
+	sf, ok := e.ss.SpecFns[gi.Fn]
+	if !ok || sf.Body != nil || len(sf.Params) != 1 {
+		bad("%s is not an uninterpreted specification function of one argument", gi.Fn)
+		return
+	}
+	n := 0
+	for _, g := range e.topFrame.spec.GhostInits {
+		if g.Fn == gi.Fn && g.Local == gi.Local {
+			n++
+		}
+	}
+	if n != 1 {
+		bad("more than one ghostinit for %s(&%s)", gi.Fn, gi.Local)
+		return
+	}
+	sites := 0
+	for _, b := range e.fn.Blocks {
+		for _, in := range b.Instrs {
+			c, ok := in.(ssa.CallInstruction)
+			if !ok {
+				continue
+			}
+			if f := c.Common().StaticCallee(); f != nil && f.Name() == gi.Callee {
+				sites++
+				for _, body := range fr.loops.body {
+					if body[b] {
+						bad("the call of %s is inside a loop", gi.Callee)
+						return
+					}
+				}
+			}
+		}
+	}
+	if sites != 1 {
+		bad("%d call sites of %s (need exactly one)", sites, gi.Callee)
+		return
+	}
+	allocs := fr.locals[gi.Local]
+	if len(allocs) != 1 || !allocs[0].Heap {
+		bad("%s is not a unique address-taken local variable", gi.Local)
+		return
+	}
+	for _, b := range e.fn.Blocks {
+		for _, body := range fr.loops.body {
+			if body[b] && allocs[0].Block() == b {
+				bad("%s is allocated inside a loop", gi.Local)
+				return
+			}
+		}
+	}
+	env := e.specEnv(fr, st, nil)
+	for k, v := range fr.entryParams {
+		if _, isLocal := fr.locals[k]; !isLocal {
+			env.vars[k] = v
+		}
+	}
+	lhs := env.eval(ECall{Fn: gi.Fn, Args: []Expr{EUn{Op: "&", X: EIdent{gi.Local}}}})
+	rhs := env.eval(gi.E)
+	e.ctx.assume(imp(st.pc, eq(lhs.T, rhs.T)))
+	e.trust("ghost initialisation " + gi.Src + " in " + e.key + " (the ghost argument of a lock created by this activation; unconstrained before)")
 }
